@@ -139,6 +139,7 @@ func runCLI(bin, dir string, inv cliInv) cliRun {
 	if inv.File == "stdin" || inv.File == "dash" {
 		cmd.Stdin = strings.NewReader(doc)
 	}
+	// (file "null": Stdin stays nil, the child reads /dev/null - a character device that is not a terminal)
 	var so, se bytes.Buffer
 	cmd.Stderr = &se
 	switch inv.Stdout {
